@@ -427,6 +427,15 @@ def clamp(
     if inverted_output == "mean":
         output = leaky_clamp(input, min, max, clamped_slope=0.0, inverted_output="mean")
     elif inverted_output == "max":
+        if min is None and max is None:
+            return input
+        if min is not None and max is not None:
+            if isinstance(min, Tensor) != isinstance(max, Tensor):
+                # torch.clamp does not accept a number bound together with a tensor bound
+                min, max = (
+                    torch.as_tensor(bound, dtype=input.dtype, device=input.device)
+                    for bound in (min, max)
+                )
         output = torch.clamp(input, min, max)
     else:
         raise ValueError("inverted_output must be 'mean' or 'max'.")
